@@ -2,7 +2,7 @@ SPECIFICATION Spec
 CONSTANTS
   K = 4
   MaxSize = 16
-  MaxDepth = 3
+  MaxDepth = 2
 VIEW View
 INVARIANTS Inv_WF Inv_Ref Inv_Post Emit
 CHECK_DEADLOCK FALSE
